@@ -685,6 +685,12 @@ func (c *FnCtx) evalCall(x *ECall, env *Env) (TV, error) {
 			k, s := c.g.heapKeyFor(p.Elem())
 			h := c.heap(env.st, k, s)
 			return TV{sel(h, args[0].t), p.Elem()}, nil
+		case "bytesOf":
+			args, err := evalArgs()
+			if err != nil {
+				return TV{}, err
+			}
+			return TV{c.g.bytesOfString(c, args[0].t), types.NewSlice(types.Typ[types.Uint8])}, nil
 		case "countEq":
 			// countEq(m, v): number of keys of map m whose value is v
 			args, err := evalArgs()
